@@ -73,7 +73,7 @@ def run(case):
     M = np.array(case['lattice']['matrix'], float)
     sg, ops = ops_of(case['group'])
     lat = cases.lattice(case['lattice'])
-    sites = [PeriodicSite('Li', np.array(s, float), lat, label=f'S{i}') for i, s in enumerate(case['sites'])]
+    sites = [PeriodicSite('Li', np.array(s, float), lat, label=('Li' if case.get('same_label') else f'S{i}')) for i, s in enumerate(case['sites'])]
     an = ShapeAnalyzer(sites=sites, lattice=lat, spacegroup=sg)
     radius = case['radius']
     positions = np.array(case['positions'], float)
@@ -174,7 +174,7 @@ def shape_cases(draw, tier):
         positions.append((p - np.floor(p)).tolist())
     for _ in range(draw(st.integers(0, 4))):
         positions.append([draw(st.floats(0, 1, exclude_max=True)) for _ in range(3)])
-    case = {'group': group, 'lattice': lat, 'sites': sites, 'positions': positions, 'radius': radius}
+    case = {'group': group, 'lattice': lat, 'sites': sites, 'positions': positions, 'radius': radius, 'same_label': draw(st.booleans())}
     mode = draw(st.sampled_from(['positions', 'positions', 'trajectory', 'supercell']))
     if mode == 'trajectory':
         case['via_trajectory'] = True
